@@ -708,9 +708,11 @@ func (w *c18World) play(sc *c18Scenario, seed int64) (res c18Result) {
 				w.up.mu.Unlock()
 				select {
 				case <-done:
-				case <-time.After(10 * time.Second):
-					res.setup = "Shutdown never returned, even after every server was closed and all work abandoned"
+					blockedBy = "open work (returned only when it was abandoned)"
+				case <-time.After(5 * time.Second):
+					blockedBy = "unknown (never returned, even after every server was closed and all work abandoned)"
 				}
+				res.shutdown = time.Since(tStart)
 			}
 		}
 		find("bounded-return", map[string]any{"blocked_by": blockedBy, "open_work_on": strings.Join(openKinds, ",")},
